@@ -190,6 +190,8 @@ pub trait VerifierObj {
     fn deliver_key(&mut self, token: &'static str, km: &KeyMat, arena: &Arena) -> Option<Outcome>;
     /// re-configure the live object; `slot` is the validator slot a new validator registration gets
     fn reconfigure(&mut self, op: &VOp, slot: usize, arena: &Arena) -> bool;
+    /// set footer (which = 0) or assertion (which = 1) to exactly this borrowed string
+    fn set_str(&mut self, which: u8, s: &'static str) -> bool;
 }
 
 fn ok_str(r: Result<String, PasetoError>) -> Outcome {
@@ -241,26 +243,45 @@ where
             _ => false,
         }
     }
+    fn set_str(&mut self, which: u8, s: &'static str) -> bool {
+        match which {
+            0 => {
+                self.footer = Some(s);
+                true
+            }
+            _ if A => {
+                self.assertion = Some(s);
+                true
+            }
+            _ => false,
+        }
+    }
 }
 
-struct ParserV<P, K: 'static, F, M, R>
+struct ParserV<P, K: 'static, F, M, R, S>
 where
     F: FnMut(&mut P, &'static str, &'static K) -> Outcome,
     M: Fn(&KeyMat, &Arena) -> Option<&'static K>,
     R: Fn(&mut P, &VOp, usize, &Arena) -> bool,
+    S: Fn(&mut P, u8, &'static str) -> bool,
 {
     parser: P,
     key: &'static K,
     f: F,
     mk: M,
     rc: R,
+    ss: S,
 }
-impl<P, K, F, M, R> VerifierObj for ParserV<P, K, F, M, R>
+impl<P, K, F, M, R, S> VerifierObj for ParserV<P, K, F, M, R, S>
 where
     F: FnMut(&mut P, &'static str, &'static K) -> Outcome,
     M: Fn(&KeyMat, &Arena) -> Option<&'static K>,
     R: Fn(&mut P, &VOp, usize, &Arena) -> bool,
+    S: Fn(&mut P, u8, &'static str) -> bool,
 {
+    fn set_str(&mut self, which: u8, s: &'static str) -> bool {
+        (self.ss)(&mut self.parser, which, s)
+    }
     fn deliver(&mut self, token: &'static str) -> Outcome {
         (self.f)(&mut self.parser, token, self.key)
     }
@@ -291,6 +312,27 @@ macro_rules! reconf {
                     true
                 }
                 VOp::SetAssertion(_a) => reconf!(@assert $assert, p, _a, arena),
+                VOp::SetFooterPrefixOfCurrent(_) | VOp::SetAssertionPrefixOfCurrent(_) => false,
+            }
+        }
+    };
+    (@setstr $P:ty, yes) => {
+        |p: &mut $P, which: u8, s: &'static str| -> bool {
+            if which == 0 {
+                p.set_footer(Footer::from(s));
+            } else {
+                p.set_implicit_assertion(ImplicitAssertion::from(s));
+            }
+            true
+        }
+    };
+    (@setstr $P:ty, no) => {
+        |p: &mut $P, which: u8, s: &'static str| -> bool {
+            if which == 0 {
+                p.set_footer(Footer::from(s));
+                true
+            } else {
+                false
             }
         }
     };
@@ -431,6 +473,7 @@ macro_rules! local_verifier {
                     f: |p: &mut GenericParser<'static, 'static, $V, Local>, t: &'static str, k: &'static PasetoSymmetricKey<$V, Local>| ok_json(p.parse(t, k)),
                     mk,
                     rc: reconf!(GenericParser<'static, 'static, $V, Local>, $assert),
+                    ss: reconf!(@setstr GenericParser<'static, 'static, $V, Local>, $assert),
                 });
                 Ok((b, notes))
             }
@@ -450,6 +493,7 @@ macro_rules! local_verifier {
                     f: |p: &mut PasetoParser<'static, $V, Local>, t: &'static str, k: &'static PasetoSymmetricKey<$V, Local>| ok_json(p.parse(t, k)),
                     mk,
                     rc: reconf!(PasetoParser<'static, $V, Local>, $assert),
+                    ss: reconf!(@setstr PasetoParser<'static, $V, Local>, $assert),
                 });
                 Ok((b, notes))
             }
@@ -508,6 +552,7 @@ macro_rules! public_verifier {
                     f: |p: &mut GenericParser<'static, 'static, $V, Public>, t: &'static str, k: &'static PasetoAsymmetricPublicKey<'static, $V, Public>| ok_json(p.parse(t, k)),
                     mk,
                     rc: reconf!(GenericParser<'static, 'static, $V, Public>, $assert),
+                    ss: reconf!(@setstr GenericParser<'static, 'static, $V, Public>, $assert),
                 });
                 Ok((b, notes))
             }
@@ -527,6 +572,7 @@ macro_rules! public_verifier {
                     f: |p: &mut PasetoParser<'static, $V, Public>, t: &'static str, k: &'static PasetoAsymmetricPublicKey<'static, $V, Public>| ok_json(p.parse(t, k)),
                     mk,
                     rc: reconf!(PasetoParser<'static, $V, Public>, $assert),
+                    ss: reconf!(@setstr PasetoParser<'static, $V, Public>, $assert),
                 });
                 Ok((b, notes))
             }
@@ -1003,6 +1049,9 @@ pub fn key_parse(n: usize, text: &str) -> Option<Outcome> {
 struct VerifierSlot {
     spec: VerifierSpec,
     obj: Option<Box<dyn VerifierObj>>,
+    /// backing strings of the footer / assertion last handed to the live object through Reconfigure
+    cur_footer: Option<&'static str>,
+    cur_assertion: Option<&'static str>,
 }
 
 pub struct World {
@@ -1193,7 +1242,7 @@ impl World {
                 let made = env::guarded(|| make_verifier(spec, &km, &self.arena));
                 match made {
                     Ok(Ok((obj, notes))) => {
-                        self.verifiers.insert(*v, VerifierSlot { spec: spec.clone(), obj: Some(obj) });
+                        self.verifiers.insert(*v, VerifierSlot { spec: spec.clone(), obj: Some(obj), cur_footer: None, cur_assertion: None });
                         Obs::NewVerifier { ok: true, notes }
                     }
                     Ok(Err(e)) => Obs::Skipped(e),
@@ -1211,17 +1260,55 @@ impl World {
                     None => return Obs::Skipped("verifier object was discarded".into()),
                 };
                 let vslot = slot.spec.validators.len();
-                let applied = match env::guarded(|| obj.reconfigure(op, vslot, arena)) {
-                    Ok(a) => a,
-                    Err(_) => false,
+                let mut resolved: Option<VOp> = None;
+                let applied = match op {
+                    VOp::SetFooterPrefixOfCurrent(n) | VOp::SetAssertionPrefixOfCurrent(n) => {
+                        let which: u8 = if matches!(op, VOp::SetFooterPrefixOfCurrent(_)) { 0 } else { 1 };
+                        let cur = if which == 0 { slot.cur_footer } else { slot.cur_assertion };
+                        match cur {
+                            Some(s) if *n <= s.len() && s.is_char_boundary(*n) => {
+                                let sub: &'static str = &s[..*n];
+                                let ok = env::guarded(|| obj.set_str(which, sub)).unwrap_or(false);
+                                if ok {
+                                    resolved = Some(if which == 0 { VOp::SetFooter(sub.to_string()) } else { VOp::SetAssertion(sub.to_string()) });
+                                }
+                                ok
+                            }
+                            _ => false,
+                        }
+                    }
+                    VOp::SetFooter(f) => {
+                        let s = arena.str(f);
+                        let ok = env::guarded(|| obj.set_str(0, s)).unwrap_or(false);
+                        if ok {
+                            slot.cur_footer = Some(s);
+                        }
+                        ok
+                    }
+                    VOp::SetAssertion(a) => {
+                        let s = arena.str(a);
+                        let ok = env::guarded(|| obj.set_str(1, s)).unwrap_or(false);
+                        if ok {
+                            slot.cur_assertion = Some(s);
+                        }
+                        ok
+                    }
+                    _ => match env::guarded(|| obj.reconfigure(op, vslot, arena)) {
+                        Ok(a) => a,
+                        Err(_) => false,
+                    },
                 };
                 if applied {
-                    match op {
+                    match resolved.as_ref().unwrap_or(op) {
                         VOp::CheckClaim(c) => slot.spec.expect.push(c.clone()),
                         VOp::ValidateClaim(vs) => slot.spec.validators.push(vs.clone()),
                         VOp::SetFooter(f) => slot.spec.footer = Some(f.clone()),
                         VOp::SetAssertion(a) => slot.spec.assertion = Some(a.clone()),
+                        _ => {}
                     }
+                }
+                if let Some(r) = resolved {
+                    return Obs::ReconfigureResolved { applied, as_op: r };
                 }
                 Obs::Reconfigure { applied }
             }
@@ -1269,6 +1356,51 @@ impl World {
                     None => None,
                 };
                 Obs::Deliver { main, twin: twin_obs, control: control_obs }
+            }
+            Op::DrawKeys { n } => {
+                env::set_entropy(EntropyMode::Observe, 0, &[]);
+                let n = *n as usize;
+                let mut seen: std::collections::HashSet<[u8; 32]> = std::collections::HashSet::with_capacity(n);
+                let mut ones = [0u32; 256];
+                let mut first: Option<[u8; 32]> = None;
+                let mut varies = [false; 32];
+                let (mut ok, mut failed) = (0u32, 0u32);
+                for k in 0..n {
+                    match env::guarded(|| rusty_paseto::core::Key::<32>::try_new_random().map(|key| *key)) {
+                        Ok(Ok(bytes)) => {
+                            ok += 1;
+                            seen.insert(bytes);
+                            for (i, b) in bytes.iter().enumerate() {
+                                for bit in 0..8 {
+                                    ones[i * 8 + bit] += ((b >> bit) & 1) as u32;
+                                }
+                                if let Some(f) = &first {
+                                    if f[i] != *b {
+                                        varies[i] = true;
+                                    }
+                                }
+                            }
+                            if first.is_none() {
+                                first = Some(bytes);
+                            }
+                        }
+                        _ => failed += 1,
+                    }
+                    if k % 4096 == 0 {
+                        let _ = env::take_entropy_draws();
+                    }
+                }
+                let _ = env::take_entropy_draws();
+                let constant_positions = if ok >= 2 { varies.iter().filter(|v| !**v).count() as u32 } else { 0 };
+                // |ones - n/2| in units of sigma = sqrt(n)/2, times 100
+                let worst = if ok > 0 {
+                    let half = ok as f64 / 2.0;
+                    let sigma = (ok as f64).sqrt() / 2.0;
+                    ones.iter().map(|o| (((*o as f64 - half).abs() / sigma) * 100.0) as u32).max().unwrap_or(0)
+                } else {
+                    0
+                };
+                Obs::Draws { ok, failed, distinct: seen.len() as u32, constant_positions, worst_bit_dev_centisigma: worst }
             }
             Op::KeyParse { n, text } => match env::guarded(|| key_parse(*n, text)) {
                 Ok(Some(o)) => Obs::KeyParse { outcome: o },
